@@ -1362,3 +1362,19 @@ M('C03', 'left vector multiple scales the inner result in place', OPR,
 M('C03', 'matrix operator uses dot(out=) for every axis-0 contraction', TOPS,
   "            elif self.range.ndim == 1:", "            elif self.axis == 0:",
   'MatrixOperator[3-d domain, axis=0]')
+M('C01', 'BLAS guard admits every inexact dtype of 4 bytes or more', NPYF,
+  "    elif any(x.dtype not in _BLAS_DTYPES for x in args):",
+  "    elif any(x.dtype.kind not in 'fc' or x.dtype.itemsize < 4 for x in args):",
+  'C01-R1c')
+M('C01', 'BLAS dtype whitelist gains half precision', NPYF,
+  "_BLAS_DTYPES = (np.dtype('float32'), np.dtype('float64'),",
+  "_BLAS_DTYPES = (np.dtype('float16'), np.dtype('float32'), np.dtype('float64'),",
+  'C01-R1c')
+M('C01', 'division skips zero divisors with where=', NPYF,
+  "        np.divide(x1.data, x2.data, out=out.data)",
+  "        np.divide(x1.data, x2.data, out=out.data, where=(x2.data != 0))",
+  'C01-R4L')
+M('C01', 'multiply writes into the first factor', NPYF,
+  "        np.multiply(x1.data, x2.data, out=out.data)",
+  "        out.data[:] = np.multiply(x1.data, x2.data, out=x1.data)",
+  'C01-R4L')
